@@ -453,6 +453,7 @@ func c11Robustness(r *ev.Run, robust, accepted, uciCmds *atomic.Int64) {
 	}
 	// 1. all short strings over a FEN alphabet
 	alpha := []byte("kP8/ w-a3 1K")
+	_ = alpha
 	maxLen := ev.Pick(r, 5, 6)
 	var batches [][]string
 	var cur []string
@@ -471,6 +472,15 @@ func c11Robustness(r *ev.Run, robust, accepted, uciCmds *atomic.Int64) {
 		}
 	}
 	gen(nil)
+	// 1b. all short strings over the alphabet of the tuner's records (result suffix, separators, line ends left in by
+	// files written elsewhere): the record parser strips a fixed-length suffix
+	alpha = []byte("1.05; \r\n\"-")
+	gen(nil)
+	for _, base := range c11Bases {
+		for _, suffix := range []string{"; 0.5\r", "; 0.5\r\n", " ; 1.0\n", ";0.0\r\r\n", "\r\n", "\r", "; 1/2-1/2\r\n", " \"1-0\";\r", "; 0.5;\r\n; 0.5"} {
+			cur = append(cur, base+suffix, suffix+base, suffix)
+		}
+	}
 	// 2. edits of base FENs
 	ins := []byte(" /-k8w0a:Z\x00\xff9Kq1")
 	for _, base := range c11Bases {
